@@ -139,7 +139,10 @@ TEXT = {
               "last call are exactly the accepted events in receive order — every accepted event in exactly one batch), worker_nonempty, worker_only_accepted, turn_rejected; "
               "collect_conserve (the returned batch is exactly the set so far plus the accepted events received in this call, in receive order, and is non-empty), turn_next_set / "
               "turn_batch (per turn), turn_filtered (only non-urgent non-empty events reach the filter; every error comes from an erroring verdict and its event is not kept), "
-              "classify_spec. The driver's zero-latency run goes through the same `turn` function and must reproduce the real worker's batches away from window edges."),
+              "classify_spec. The driver's zero-latency run goes through the same `turn` function and must reproduce the real worker's batches away from window edges. "
+              "How a keyboard EOF gets INTO the queue is modelled too (Kb: the keyboard worker's loop around ConfigWatched, the watch_stdin task it spawns and closes): eof_never_lost, "
+              "eof_exactly_once, delivered_le_enables, spawned_eq_edges / delivered_le_edges, disabled_delivers_nothing — for every script of run-time keyboard_events(..) changes, input "
+              "and end of input; compared with a real instance whose fd 0 is a pipe held by the harness (stream keyboard)."),
         note=COMMON_NOTE + "Modelled: the priority channel, tokio timeout, std Instant (readings are inputs). Real-time runs."),
     "C02": dict(
         design_ref="§7 C02",
@@ -168,8 +171,10 @@ TEXT = {
               "ends, and the property's own time bound and 'nothing left alive' are checked as oracles. The per-job time bound is a theorem: c08_quit_bound / c08_deadline (from ANY state, after "
               "GracefulStop; Stop + Delete the job task is gone whenever the virtual clock exceeds the deadline = expiry of the timer armed at the quit + grace periods still queued + the "
               "quit's own; the clock passes only while the task is idle and never beyond an armed timer — SimInv3), with idle_timer (nothing but an unexpired grace timer holds a control back). "
-              "CLI: first_interrupt_quits_gracefully / other_signals_pass / interrupts_escalate (config.rs' decision on INT / TERM), run against the real handler by the cli-quit stream and end to "
-              "end by e2e-cli (real signals to the built binary). The composition over the job map is a theorem too: c08_main_bound (any number of jobs, each in any state incl. already ended ones — dead_stays_dead —, each with its own continuation: at any common instant later than the LARGEST per-job bound no job task is alive, i.e. both join_all calls of the quit branch have returned). Partial: process-group members surviving "
+              "CLI: first_interrupt_quits_gracefully / other_signals_pass / interrupts_escalate (config.rs' decision on INT / TERM), with --map-signal inside the model (mapped_interrupt_does_not_quit, "
+              "translate_one, last_mapping_wins; stream cli-sigmap) and keyboard EOF / --stdin-quit (keyboard_eof_quits_gracefully), run against the real handler by the cli-quit and cli-sigmap streams and end to "
+              "end by e2e-cli (real signals to the built binary). Which jobs a quit reaches is a theorem as well: no_job_outside_the_registry (Rg: Id::default() on any threads, the handler's create / "
+              "get-or-create / get calls, the worker's registry and gc — for every script every started job is registered or has ended), compared with a real instance and real processes by the registry stream. The composition over the job map is a theorem too: c08_main_bound (any number of jobs, each in any state incl. already ended ones — dead_stays_dead —, each with its own continuation: at any common instant later than the LARGEST per-job bound no job task is alive, i.e. both join_all calls of the quit branch have returned). Partial: process-group members surviving "
               "graceful quit / abort of a grouped command are recorded known findings (F15a, F15b), observed by the real-process stream on every run."),
         note=COMMON_NOTE + "Modelled: tokio mpsc/select!/paused clock, process-wrap child (scripted child through the public spawn hook), SeqCst reading of the Relaxed atomics."),
     "C05": dict(
